@@ -174,8 +174,17 @@ def d5(ctx, F):
     ctx.check(ok, "C04.D5.timeout-error", "request:elapsed-not-timeout-error", "an elapsed timeout is reported as SeliumError::RequestTimeout", (me or to)[0].span)
 
 
+def d6(ctx, F):
+    """separate requestor streams: the server keys each requestor's replies by an id that is unique among live requestors and stamped
+    on every request (the tag / id rules of C02.D1 and the reply-routing rules of C02.D2)"""
+    from . import c02
+    c02.d1(ctx, F)
+    c02.d2(ctx, F)
+
+
 def run(ctx):
     F = ctx.facts("quick")
+    d6(ctx, F)
     d1(ctx, F)
     d2(ctx, F)
     d3(ctx, F)
